@@ -16,7 +16,7 @@ func init() {
 		ID: "C08",
 		Rule: "case = one generated definition (longlat, merc with lat_ts or k_0, lcc 2SP/1SP, aea, eqdc, tmerc, utm zones 1-60 N/S, krovak; every built-in ellipsoid name incl. sphere, a+b, a+rf; datum none/named/towgs84 3/7; units m/ft/us-ft/to_meter; prime meridian by name or value) with 4 positions in its usable region, round-tripped p -> xy -> p' -> xy' through fresh SR objects and a fresh transformer per call against (i) the geographic system on the same ellipsoid/datum (every position of the usable region) and (iii) a geographic system that names only an ellipsoid (no datum; small-shift definitions as in ii) and (ii) WGS84 through the datum shift (positions inside the datum's area of use; whole globe for WGS84/NAD83 and small random towgs84); plus the forward/inverse closure pair of (*SR).Transformers() in radians; " +
 			"violation = any error, |dlon| or |dlat| > 1e-6 deg (longitude modulo 360) or |xy'-xy| > 1 cm; an evaluation is one position round-tripped; non-trivial = definition with a datum shift, a non-metre unit, a prime meridian or a non-WGS84 ellipsoid; distinct by definition hash",
-		Assumptions: []string{"WGS84 partner only inside area-of-use boxes (a 2-D transform drops the ellipsoidal height a datum shift produces; outside the area of use a correct implementation loses up to 1 m per round trip, identically in proj4js)", "usable regions as stated by the property; longitudes kept inside (-180, 180) in every meridian frame"},
+		Assumptions: []string{"WGS84 partner only inside area-of-use boxes (a 2-D transform drops the ellipsoidal height a datum shift produces; outside the area of use a correct implementation loses up to 1 m per round trip, identically in proj4js)", "usable regions as stated by the property; the longitude handed to a transformer lies inside (-179.5, 179.5) of the meridian frame it is stated in (own frame for the projection, partner frame for the geographic side); conic positions stay 0.002 deg away from the pole"},
 		Phases: []core.Phase{{Name: "roundtrip", NumCases: func(t string) int {
 			if t == "thorough" {
 				return 1000000
